@@ -4,8 +4,8 @@ Extraction Language OCaml.
 Definition v4_init := State4.init.
 Definition v4_step := State4.step.
 Definition v4_step_orig := State4Orig.step_orig.
-Definition v4_k18 := Run4.k18.
-Definition v4_k19 := Run4.k19.
+Definition v4_k29 := Run4.k29.
+Definition v4_k30 := Run4.k30.
 Definition v4_contract := Run4.contract.
 Definition v4_drain := State4.drain.
 Definition v4_inflight := State4.inflight.
@@ -29,4 +29,4 @@ Definition l_connected := Loop.connected.
 Definition l_wire := Loop.wire.
 Definition l_yielded := Loop.yielded.
 Definition v4_events := State4.events.
-Extraction "client_model.ml" v4_init v4_step v4_step_orig v4_k18 v4_k19 v4_contract v4_drain v4_inflight v4_collision v5_init v5_step v5_step_orig v5_drain v5_inflight v5_collision l_init l_step l_step_orig l_take_enabled l_take_enabled_orig l_clean l_clean_orig l_st l_pending l_connected l_wire l_yielded v4_events.
+Extraction "client_model.ml" v4_init v4_step v4_step_orig v4_k29 v4_k30 v4_contract v4_drain v4_inflight v4_collision v5_init v5_step v5_step_orig v5_drain v5_inflight v5_collision l_init l_step l_step_orig l_take_enabled l_take_enabled_orig l_clean l_clean_orig l_st l_pending l_connected l_wire l_yielded v4_events.
